@@ -140,6 +140,9 @@ fn scenario() -> impl Strategy<Value = Scenario> {
 /// configuration loading in-process (file and ENV), valid and invalid variants, under the capturing logger
 #[derive(Debug, Clone, serde::Serialize, serde::Deserialize)]
 pub struct ConfigLeak {
+    /// rewrite the seed so that its hex form consists of decimal digits only (a YAML number)
+    #[serde(default)]
+    pub digits: bool,
     pub seed: Hex,
     pub via_env: bool,
     /// index into CONFIG_VARIANTS
@@ -147,7 +150,7 @@ pub struct ConfigLeak {
 }
 
 /// (name, extra settings, seed override: None = the 64-hex seed; Some(n) = first n hex chars of it)
-pub const CONFIG_VARIANTS: [(&str, &[(&str, &str)], Option<usize>); 14] = [
+pub const CONFIG_VARIANTS: [(&str, &[(&str, &str)], Option<usize>); 28] = [
     ("valid", &[], None),
     ("valid-all-options", &[("batch_size", "16"), ("status_interval", "30"), ("fault_percentage", "5"), ("num_workers", "2")], None),
     ("batch-size-300", &[("batch_size", "300")], None),
@@ -162,11 +165,38 @@ pub const CONFIG_VARIANTS: [(&str, &[(&str, &str)], Option<usize>); 14] = [
     ("seed-odd-length", &[], Some(63)),
     ("bad-interface", &[("interface", "not-an-address")], None),
     ("port-0", &[("port", "0")], None),
+    // every integer setting: not a number / far too large (parse-error paths of both loaders)
+    ("port-nonnumeric", &[("port", "abc")], None),
+    ("port-huge", &[("port", "99999999999")], None),
+    ("batch-size-nonnumeric", &[("batch_size", "x1")], None),
+    ("batch-size-huge", &[("batch_size", "99999999999")], None),
+    ("status-interval-nonnumeric", &[("status_interval", "daily")], None),
+    ("status-interval-86400", &[("status_interval", "86400")], None),
+    ("health-port-nonnumeric", &[("health_check_port", "http")], None),
+    ("health-port-huge", &[("health_check_port", "99999999999")], None),
+    ("fault-nonnumeric", &[("fault_percentage", "5%")], None),
+    ("fault-huge", &[("fault_percentage", "99999999999")], None),
+    ("workers-nonnumeric", &[("num_workers", "many")], None),
+    ("workers-negative", &[("num_workers", "-4")], None),
+    ("kms-unknown", &[("kms_protection", "frobble")], None),
+    ("client-stats-weird", &[("client_stats", "maybe")], None),
 ];
 
-fn check_config_leak(ctx: &mut Ctx, c: &ConfigLeak) -> Res {
+/// every nibble folded into 0..=9: the hex text of the seed is then all decimal digits
+pub fn digit_only(seed: &[u8]) -> Vec<u8> {
+    seed.iter().map(|b| ((b >> 4) % 10) << 4 | ((b & 15) % 10)).collect()
+}
+
+fn check_config_leak(ctx: &mut Ctx, c0: &ConfigLeak) -> Res {
     use roughenough::config::{is_valid_config, make_config};
     ctx.eval();
+    let mut c = c0.clone();
+    if c.digits {
+        c.seed = Hex(digit_only(&c.seed.0));
+        // keep the value out of i64 range (a YAML float, not an integer with lost leading zeros)
+        c.seed.0[0] |= 0x10;
+    }
+    let c = &c;
     let needles = Needles::new(&c.seed.0);
     let (vname, extra, seed_cut) = CONFIG_VARIANTS[c.variant as usize % CONFIG_VARIANTS.len()];
     let seed_hex = hex(&c.seed.0);
@@ -251,10 +281,14 @@ pub fn run(ctx: &mut Ctx) -> Vec<Violation> {
         h.0[0] |= 0xa0; // keep the YAML scalar a string
         h
     }), any::<bool>(), 0u8..CONFIG_VARIANTS.len() as u8)
-        .prop_map(|(seed, via_env, variant)| ConfigLeak { seed, via_env, variant });
+        .prop_map(|(seed, via_env, variant)| ConfigLeak { digits: false, seed, via_env, variant });
     out.extend(run_prop(ctx, &format!("config-{:?}", level), t.pick(4_000, 40_000), 100, cl, |ctx, c| {
         ctx.sample("config", 2, c);
-        check_config_leak(ctx, c)
+        check_config_leak(ctx, c)?;
+        // the same configuration with a digit-only seed
+        let mut d = c.clone();
+        d.digits = true;
+        check_config_leak(ctx, &d)
     }));
     if ctx.shard == 0 {
         ctx.note(format!("needle windows per seed: {}", Needles::new(&[1u8; 32]).count));
